@@ -46,23 +46,25 @@ VARIABLES
   world,  \* resource -> value, as computed by the SPEC from the logged steps
   w0,     \* world at the beginning of the current top-level dispatch
   nset,   \* gid -> number of setup calls received in the current Dispatcher::setup
-  ndis    \* gid -> number of dispose calls received
+  ndis,   \* gid -> number of dispose calls received
+  asy     \* async dispatcher session: [issued, started, incall, waits]
 
 pvars == <<dead, lay, names, epoch, since, tls, regs, pos, last, ref, refi, var, owner>>
-xvars == <<st, runs, dsp, world, w0, nset, ndis>>
+xvars == <<st, runs, dsp, world, w0, nset, ndis, asy>>
 vars == <<l, pvars, ok, xvars>>
 
 ToSet(s) == {s[i] : i \in DOMAIN s}
 Ev == Rec[l]
 Is(e) == l <= Len(Rec) /\ Ev.ev = e /\ l' = l + 1
 
+AsyOff == [issued |-> 0, started |-> 0, incall |-> "none", waits |-> 0]
 OkInit == [c18 |-> TRUE, c20 |-> TRUE, c19 |-> TRUE, built |-> TRUE, c10mt |-> TRUE, c12s |-> TRUE,
-           c04 |-> TRUE, c05 |-> TRUE, c07 |-> TRUE, c12 |-> TRUE, c14 |-> TRUE, c13 |-> TRUE]
+           c04 |-> TRUE, c05 |-> TRUE, c07 |-> TRUE, c12 |-> TRUE, c14 |-> TRUE, c13 |-> TRUE, c15 |-> TRUE]
 
 Init == /\ l = 1 /\ dead = FALSE /\ lay = <<>> /\ names = <<>> /\ epoch = <<>> /\ since = <<>>
         /\ tls = <<>> /\ regs = <<>> /\ pos = <<>> /\ last = 0 /\ ok = OkInit
         /\ ref = <<>> /\ refi = 0 /\ var = 0 /\ owner = <<>>
-        /\ st = <<>> /\ runs = <<>> /\ dsp = <<>> /\ world = <<>> /\ w0 = <<>> /\ nset = <<>> /\ ndis = <<>>
+        /\ st = <<>> /\ runs = <<>> /\ dsp = <<>> /\ world = <<>> /\ w0 = <<>> /\ nset = <<>> /\ ndis = <<>> /\ asy = AsyOff
 
 TrReset ==
   /\ Is("reset")
@@ -70,7 +72,7 @@ TrReset ==
   /\ tls' = <<>> /\ regs' = <<>> /\ pos' = <<>> /\ last' = 0 /\ ok' = OkInit
   /\ ref' = IF Ev.var = 0 THEN <<>> ELSE ref
   /\ refi' = 0 /\ var' = Ev.var /\ owner' = <<>>
-  /\ st' = <<>> /\ runs' = <<>> /\ dsp' = <<>> /\ world' = <<>> /\ w0' = <<>> /\ nset' = <<>> /\ ndis' = <<>>
+  /\ st' = <<>> /\ runs' = <<>> /\ dsp' = <<>> /\ world' = <<>> /\ w0' = <<>> /\ nset' = <<>> /\ ndis' = <<>> /\ asy' = AsyOff
 
 (***************************************************************************)
 (* REGISTRATION                                                            *)
@@ -85,7 +87,7 @@ TrNew ==
           /\ epoch' = Append(epoch, 0) /\ since' = Append(since, FALSE) /\ tls' = Append(tls, <<>>)
           /\ owner' = Append(owner, 0) /\ dsp' = Append(dsp, DspOff)
           /\ UNCHANGED dead
-  /\ UNCHANGED <<regs, pos, last, ok, ref, refi, var, st, runs, world, w0, nset, ndis>>
+  /\ UNCHANGED <<regs, pos, last, ok, ref, refi, var, st, runs, world, w0, nset, ndis, asy>>
 
 \* append-shaped placement of a new id in a layout
 PlaceOK(ly, p) ==
@@ -239,7 +241,7 @@ WorldOf(e) == [r \in ToSet(e.rid) |-> e.val[CHOOSE i \in DOMAIN e.rid : e.rid[i]
 TrWorld0 ==
   /\ Is("world0")
   /\ world' = WorldOf(Ev)
-  /\ UNCHANGED <<pvars, ok, st, runs, dsp, w0, nset, ndis>>
+  /\ UNCHANGED <<pvars, ok, st, runs, dsp, w0, nset, ndis, asy>>
 
 TrBegin ==
   /\ Is("begin")
@@ -247,7 +249,7 @@ TrBegin ==
      ELSE LET e == Ev  b == e.d IN
           /\ dsp' = IF IsTop(b) THEN [x \in DOMAIN dsp |-> IF x = b THEN [DspOff EXCEPT !.on = TRUE, !.mode = e.mode, !.th = e.th] ELSE DspOff]
                      ELSE [dsp EXCEPT ![b] = [DspOff EXCEPT !.on = TRUE, !.mode = e.mode, !.th = e.th]]
-          /\ UNCHANGED <<world, nset, ndis>>
+          /\ UNCHANGED <<world, nset, ndis, asy>>
           /\ IF IsTop(b) THEN
                 /\ st' = [s \in Sys |-> "idle"] /\ runs' = [s \in Sys |-> 0] /\ w0' = world
                 /\ UNCHANGED ok
@@ -264,6 +266,7 @@ TrBegin ==
 \* (implicit) begin of the next inner dispatch; the round ends when every member is done
 \* (see Done below), the batch after the last round.  This under-approximates the batch's
 \* real window, which is the sound direction.
+PlainOf(b) == {x \in Members(b) : regs[x].kind \in {"plain", "batch"}}
 AutoBegin(b) == ~IsTop(b) /\ dsp[b].isauto /\ ~dsp[b].on /\ dsp[b].auto > 0 /\ st[owner[b]] = "run"
 
 TrFetch ==
@@ -271,13 +274,23 @@ TrFetch ==
   /\ IF dead \/ Ev.s \notin Sys THEN UNCHANGED <<ok, xvars>>
      ELSE LET e == Ev  s == e.s  b == regs[s].b  k == regs[s].kind
               ab == AutoBegin(b)
-              st0 == IF ab THEN [x \in Sys |-> IF x \in Members(b) THEN "idle" ELSE st[x]] ELSE st
+              \* async dispatcher: the first fetch of an ordinary top-level system that is not idle
+              \* (or the very first fetch) is the beginning of the next background dispatch
+              ar == IsTop(b) /\ dsp[b].mode = "async" /\ k \in {"plain", "batch"} /\ (st[s] # "idle" \/ asy.started = 0)
+              st0 == IF ab THEN [x \in Sys |-> IF x \in Members(b) THEN "idle" ELSE st[x]]
+                     ELSE IF ar THEN [x \in Sys |-> IF x \in PlainOf(b) THEN "idle" ELSE st[x]] ELSE st
               dsp0 == IF ab THEN [dsp EXCEPT ![b].on = TRUE, ![b].mode = "disp", ![b].th = e.th, ![b].auto = @ - 1] ELSE dsp
           IN
           /\ st' = [st0 EXCEPT ![s] = "run"]
           /\ dsp' = dsp0
           /\ UNCHANGED <<runs, world, w0, nset, ndis>>
+          /\ asy' = IF ar THEN [asy EXCEPT !.started = @ + 1] ELSE asy
           /\ ok' = [ok EXCEPT
+                \* C15: a background dispatch starts only if one was issued, and only when the
+                \* previous one is complete; thread-local systems run only inside wait()
+                !.c15 = @ /\ (ar => /\ asy.issued > asy.started
+                                     /\ \A x \in PlainOf(b) : st[x] = (IF asy.started = 0 THEN "idle" ELSE "done"))
+                          /\ ((dsp[b].mode = "async" /\ k = "tl") => asy.incall = "wait"),
                 \* C04: a system starts only from idle, inside a dispatch of its dispatcher
                 !.c04 = @ /\ st0[s] = "idle" /\ dsp0[b].on /\ Expected(s, dsp0[b].mode) > 0,
                 \* C12: thread-local systems run on the thread that called dispatch - never
@@ -287,7 +300,7 @@ TrFetch ==
                                /\ e.th = dsp0[b].th
                                /\ e.th = 0
                                /\ (\A m \in Members(b) : (regs[m].kind \in {"plain", "batch"} /\ Expected(m, dsp0[b].mode) > 0)
-                                                        => st0[m] = "done")
+                                                        => st0[m] = (IF dsp0[b].mode = "async" /\ asy.issued = 0 THEN "idle" ELSE "done"))
                                /\ \A i \in DOMAIN tls[b] :
                                     st0[tls[b][i]] = (IF i < (CHOOSE j \in DOMAIN tls[b] : tls[b][j] = s) THEN "done" ELSE "idle"))]
   /\ UNCHANGED pvars
@@ -313,7 +326,7 @@ TrFinish ==
               X == Done(XNow, s) IN
           /\ st' = X.st /\ runs' = X.runs /\ dsp' = X.dsp
           /\ world' = w1
-          /\ UNCHANGED <<w0, nset, ndis>>
+          /\ UNCHANGED <<w0, nset, ndis, asy>>
           /\ ok' = [ok EXCEPT
                 !.c04 = @ /\ st[s] = "run",
                 \* C05: what the system wrote is a function of what it declared to read,
@@ -332,7 +345,7 @@ TrMulti ==
               X == IF e.n = 0 \/ Members(ib) = {} THEN Done([st |-> st, runs |-> runs, dsp |-> dsp1], s)
                    ELSE [st |-> st, runs |-> runs, dsp |-> dsp1] IN
           /\ st' = X.st /\ runs' = X.runs /\ dsp' = X.dsp
-          /\ UNCHANGED <<world, w0, nset, ndis>>
+          /\ UNCHANGED <<world, w0, nset, ndis, asy>>
           \* C04: the planned number of inner dispatches is the registered one
           /\ ok' = [ok EXCEPT !.c04 = @ /\ regs[s].kind = "batch" /\ st[s] = "run" /\ e.n = regs[s].n]
   /\ UNCHANGED pvars
@@ -344,7 +357,7 @@ TrCtl ==
      ELSE LET e == Ev  s == e.s
               w1 == StepW(s, regs[s].rs, regs[s].ws, world) IN
           /\ world' = w1
-          /\ UNCHANGED <<st, runs, dsp, w0, nset, ndis>>
+          /\ UNCHANGED <<st, runs, dsp, w0, nset, ndis, asy>>
           /\ ok' = [ok EXCEPT !.c05 = @ /\ st[s] = "run" /\ e.nv = [i \in DOMAIN regs[s].ws |-> w1[regs[s].ws[i]]]]
   /\ UNCHANGED pvars
 
@@ -353,7 +366,7 @@ TrPanic ==
   /\ IF dead \/ Ev.s \notin Sys THEN UNCHANGED <<ok, xvars>>
      ELSE /\ st' = [st EXCEPT ![Ev.s] = "pan"]
           /\ ok' = [ok EXCEPT !.c04 = @ /\ st[Ev.s] = "run"]
-          /\ UNCHANGED <<runs, dsp, world, w0, nset, ndis>>
+          /\ UNCHANGED <<runs, dsp, world, w0, nset, ndis, asy>>
   /\ UNCHANGED pvars
 
 Pans == {s \in Sys : st[s] = "pan"}
@@ -363,7 +376,7 @@ TrEnd ==
   /\ IF dead \/ Ev.d \notin DOMAIN lay THEN UNCHANGED <<ok, xvars>>
      ELSE LET e == Ev  b == e.d  mode == dsp[b].mode IN
           /\ dsp' = [dsp EXCEPT ![b] = DspOff]
-          /\ UNCHANGED <<st, runs, world, w0, nset, ndis>>
+          /\ UNCHANGED <<st, runs, world, w0, nset, ndis, asy>>
           /\ IF ~IsTop(b) THEN
                 \* C04/C07: one inner dispatch ran every system of the batch exactly once
                 ok' = [ok EXCEPT !.c04 = @ /\ dsp[b].on /\ \A m \in Members(b) : st[m] = "done"]
@@ -398,7 +411,7 @@ AllAcc == UNION {regs[s].r \cup regs[s].w : s \in {x \in Sys : regs[x].kind # "r
 TrPreSetup ==
   /\ Is("presetup")
   /\ world' = WorldOf(Ev)
-  /\ UNCHANGED <<pvars, ok, st, runs, dsp, w0, nset, ndis>>
+  /\ UNCHANGED <<pvars, ok, st, runs, dsp, w0, nset, ndis, asy>>
 
 TrSetupCall ==
   /\ Is("setupcall")
@@ -416,13 +429,13 @@ TrSetupCall ==
                 \* everything accessed through a default-providing accessor now exists, with a default
                 /\ (\A r \in AllAcc : r \in DOMAIN after)
                 /\ (\A r \in DOMAIN after \ DOMAIN world : r \in AllAcc /\ after[r] \in {0, 1000 + r})]
-  /\ UNCHANGED <<pvars, st, runs, dsp, w0, ndis>>
+  /\ UNCHANGED <<pvars, st, runs, dsp, w0, ndis, asy>>
 
 TrSetup ==
   /\ Is("setup")
   /\ IF dead \/ Ev.s \notin DOMAIN nset THEN UNCHANGED nset
      ELSE nset' = [nset EXCEPT ![Ev.s] = @ + 1]
-  /\ UNCHANGED <<pvars, ok, st, runs, dsp, world, w0, ndis>>
+  /\ UNCHANGED <<pvars, ok, st, runs, dsp, world, w0, ndis, asy>>
 
 TrDisposeCall ==
   /\ Is("disposecall")
@@ -431,24 +444,71 @@ TrDisposeCall ==
      ELSE /\ UNCHANGED ndis
           \* every system at every depth is handed to its dispose hook exactly once
           /\ ok' = [ok EXCEPT !.c13 = @ /\ Ev.out = "ok" /\ (\A s \in Live13 : ndis[s] = 1)]
-  /\ UNCHANGED <<pvars, st, runs, dsp, world, w0, nset>>
+  /\ UNCHANGED <<pvars, st, runs, dsp, world, w0, nset, asy>>
 
 TrDispose ==
   /\ Is("dispose")
   /\ IF dead \/ Ev.s \notin DOMAIN ndis THEN UNCHANGED ndis
      ELSE ndis' = [ndis EXCEPT ![Ev.s] = @ + 1]
-  /\ UNCHANGED <<pvars, ok, st, runs, dsp, world, w0, nset>>
+  /\ UNCHANGED <<pvars, ok, st, runs, dsp, world, w0, nset, asy>>
+
+(***************************************************************************)
+(* ASYNC DISPATCHER (C15)                                                  *)
+(***************************************************************************)
+\* build_async + setup: the session begins
+TrABegin ==
+  /\ Is("abegin")
+  /\ IF dead \/ Ev.d \notin DOMAIN lay THEN UNCHANGED <<ok, xvars>>
+     ELSE /\ st' = [s \in Sys |-> "idle"] /\ runs' = [s \in Sys |-> 0]
+          /\ dsp' = [x \in DOMAIN dsp |-> IF x = Ev.d THEN [DspOff EXCEPT !.on = TRUE, !.mode = "async", !.th = 0] ELSE DspOff]
+          /\ asy' = AsyOff /\ w0' = world
+          /\ UNCHANGED <<ok, world, nset, ndis>>
+  /\ UNCHANGED pvars
+
+TopB == CHOOSE b \in DOMAIN dsp : dsp[b].mode = "async"
+\* every ordinary system of every issued dispatch has finished and none is running
+AllComplete == /\ asy.started = asy.issued
+               /\ \A x \in Sys : st[x] # "run"
+               /\ \A x \in PlainOf(TopB) : st[x] = (IF asy.issued = 0 THEN "idle" ELSE "done")
+               /\ \A x \in PlainOf(TopB) : runs[x] = asy.issued
+
+\* a call of the caller thread on the AsyncDispatcher: logged before (begin) and after (end)
+TrACall ==
+  /\ Is("acall")
+  /\ IF dead \/ ~(\E b \in DOMAIN dsp : dsp[b].mode = "async") THEN UNCHANGED <<ok, xvars>>
+     ELSE LET e == Ev IN
+          IF e.phase = "begin" THEN
+             /\ asy' = [asy EXCEPT !.incall = e.op,
+                                   !.issued = IF e.op = "dispatch" THEN @ + 1 ELSE @]
+             \* thread-local systems run once per wait(): ready again
+             /\ st' = IF e.op = "wait" THEN [x \in Sys |-> IF x \in ToSet(tls[TopB]) THEN "idle" ELSE st[x]] ELSE st
+             /\ UNCHANGED <<ok, runs, dsp, world, w0, nset, ndis>>
+          ELSE
+             /\ asy' = [asy EXCEPT !.incall = "none", !.waits = IF e.op = "wait" THEN @ + 1 ELSE @]
+             /\ UNCHANGED <<st, runs, dsp, world, w0, nset, ndis>>
+             /\ ok' = [ok EXCEPT !.c15 = @ /\ e.out = "ok" /\
+                  CASE e.op = "running" ->
+                         \* true while anything runs; false only once everything has finished
+                         /\ ((\E x \in Sys : st[x] = "run") => e.ret)
+                         /\ (~e.ret => AllComplete)
+                    [] e.op \in {"wait", "wait_without_tl", "world", "world_mut", "setup"} ->
+                         /\ AllComplete
+                         \* wait() ran every thread-local system (once per wait), the others ran none
+                         /\ \A x \in ToSet(tls[TopB]) : runs[x] = asy.waits + (IF e.op = "wait" THEN 1 ELSE 0)
+                         /\ (e.op = "wait" => \A x \in ToSet(tls[TopB]) : st[x] = "done")
+                    [] OTHER -> TRUE]
+  /\ UNCHANGED pvars
 
 Known == {"reset", "new", "add", "batch", "barrier", "tl", "print", "built",
           "world0", "begin", "fetch", "finish", "ctl", "multi", "panic", "end",
-          "presetup", "setupcall", "setup", "disposecall", "dispose"}
+          "presetup", "setupcall", "setup", "disposecall", "dispose", "abegin", "acall"}
 TrSkip ==
   /\ l <= Len(Rec) /\ Ev.ev \notin Known /\ l' = l + 1
   /\ UNCHANGED <<pvars, ok, xvars>>
 
 Next == \/ TrReset \/ TrNew \/ TrAdd \/ TrBarrier \/ TrTl \/ TrPrint \/ TrBuilt
         \/ TrWorld0 \/ TrBegin \/ TrFetch \/ TrFinish \/ TrCtl \/ TrMulti \/ TrPanic \/ TrEnd
-        \/ TrPreSetup \/ TrSetupCall \/ TrSetup \/ TrDisposeCall \/ TrDispose \/ TrSkip
+        \/ TrPreSetup \/ TrSetupCall \/ TrSetup \/ TrDisposeCall \/ TrDispose \/ TrABegin \/ TrACall \/ TrSkip
 Spec == Init /\ [][Next]_vars
 
 \* ---- property invariants ----------------------------------------------------------
@@ -476,6 +536,7 @@ InvC07 == ok.c07
 InvC12 == ok.c12
 InvC14 == ok.c14
 InvC13 == ok.c13
+InvC15 == ok.c15
 
 Accepted ==
   IF TLCGet("stats").diameter = Len(Rec) + 1 THEN TRUE
